@@ -164,7 +164,13 @@ bool Interp::exec_coll(Interp &I, const Stmt &s)
         WiredFn f = wired_fn_for(s.kws("fn", "sum"));
         PortVal d = I.get(a.at(0));
         Port<void> out;
-        if (d.shape == "tsd")
+        if (d.shape == "tsd" && s.kw.count("assoc") && s.kwi("assoc") == 0)
+        {
+            // ordered left fold over a contiguous TSD<Int, TS<Int>> (keys 0..n-1), the zero is the initial accumulator
+            auto zero = wire<stdlib::const_>(w, Int{s.kwi("zero", 0)}).template as<TS<Int>>();
+            out = wire<stdlib::reduce_>(w, f, Port<S_TSD>{w, d.ref}, zero, Bool{false});
+        }
+        else if (d.shape == "tsd")
         {
             if (s.kw.count("zero")) out = wire<stdlib::reduce_>(w, f, Port<S_TSD>{w, d.ref}, Int{s.kwi("zero")});
             else out = wire<stdlib::reduce_>(w, f, Port<S_TSD>{w, d.ref});
